@@ -185,4 +185,3 @@ func devMain(args []string) {
 		os.Exit(1)
 	}
 }
-
